@@ -191,10 +191,6 @@ example : parseCollected id okWorld [(0, 1), (0, 2), (0, 3)]
 
 /-! ## The two hooks -/
 
-def Report.key : Report → Option TKey
-  | .succ p b _ => some (p, b)
-  | .fail => none
-
 /-- **C13_hooks_disjoint.** The prefix hook (collect.py) only reports functions that do *not* carry the
 `task` mark, the decorator hook (task.py) only functions taken from `COLLECTED_TASKS[path]`; the `@task`
 decorator marks a function in the very step that registers it. So a function object is handled by one
@@ -241,6 +237,203 @@ theorem C13_wrap_marks_and_registers (file : Path) (gen : Nat) (w : World) (ns :
     (gen, obj) ∈ regGet (execStmt file gen (w, ns) (.wrap obj name id kw)).1.registry f.file := by
   simp only [execStmt, hf]
   exact ⟨by simp [isMarked, List.lookup], regGet_regAppend _ _ _⟩
+
+/-- What `pytask_collect_file_protocol` returns when the module imports and the decorator hook does not raise:
+the reports of the prefix hook followed by those of the decorator hook (pluggy order from `Generated`). -/
+theorem collectFile_ok (env : Env) (enum : List String → List String) (w w1 w2 : World) (path : Path) (m : Module)
+    (rs : List Report) (htf : env.cfg.isTaskFile path = true) (hi : importPath env w path = (w1, some m))
+    (hd : decoratorReports enum w1 path = (w2, some rs)) :
+    collectFile env enum w path = (w2, prefixReports w1 path m ++ rs) := by
+  simp [collectFile, htf, Generated.collectFileOrder, collectFileStep, hi, hd]
+
+/-- **C13_cross_hook_full**: the tasks collected from one module have pairwise distinct `(path, base_name)`,
+i.e. distinct names and signatures. -/
+def C13_cross_hook_full : Prop :=
+  ∀ (env : Env) (enum : List String → List String) (w : World) (path : Path),
+    ((collectFile env enum w path).2.filterMap Report.key).Nodup
+
+def f8bRoot : Path := ["r", "proj"]
+/-- F8b witness: `def task_x()` and `@task(name="task_x") def other()` in one module. -/
+def f8bEnv : Env :=
+  { fs := { pre := ["r"], tree := .dir "proj" [.file "task_m.py"] },
+    cfg := { root := f8bRoot, paths := [f8bRoot], ignore := [], taskFiles := Generated.defaultTaskFiles },
+    progs := [(f8bRoot ++ ["task_m.py"], { imports := [], stmts := [
+      .defFn 1 (some "task_x") "task_x" [] [] 1, .defFn 2 (some "other") "other" [] [] 2, .wrap 2 (some "task_x") none []] })],
+    preloaded := [] }
+
+/-- **Finding F8b**: the full statement is false — both functions are collected as `task_m.py::task_x`;
+collection succeeds (exit code 0) and only the second body is executed. -/
+theorem C13_cross_hook_full_false : ¬ C13_cross_hook_full := by
+  intro h
+  have := h f8bEnv id f8bEnv.init (f8bRoot ++ ["task_m.py"])
+  have hk : (collectFile f8bEnv id f8bEnv.init (f8bRoot ++ ["task_m.py"])).2.filterMap Report.key
+      = [(f8bRoot ++ ["task_m.py"], "task_x"), (f8bRoot ++ ["task_m.py"], "task_x")] := by decide
+  rw [hk] at this
+  simp at this
+
+example : (collect f8bEnv id).exit = 0 ∧ (collect f8bEnv id).tasks.map (·.tag) = [1, 2] ∧
+    (executed (collect f8bEnv id).tasks).map (·.tag) = [2] := by decide
+
+/-- **C13_cross_hook_partial.** Outside the F8b class (no `task_` function of the module carries a base
+name that the decorator hook also produces), the tasks of one module have pairwise distinct
+`(path, base_name)` — for every iteration order, every world the module is imported into. -/
+theorem C13_cross_hook_partial (env : Env) (enum : List String → List String) (w w1 w2 : World) (path : Path) (m : Module)
+    (rs : List Report) (htf : env.cfg.isTaskFile path = true) (hi : importPath env w path = (w1, some m))
+    (hd : decoratorReports enum w1 path = (w2, some rs))
+    (hdisj : ∀ k ∈ (prefixReports w1 path m).filterMap Report.key, k ∉ rs.filterMap Report.key) :
+    ((collectFile env enum w path).2.filterMap Report.key).Nodup := by
+  rw [collectFile_ok env enum w w1 w2 path m rs htf hi hd]
+  simp only [List.filterMap_append]
+  refine List.nodup_append.2 ⟨(prefix_keys w1 path _ (nsFinal_keys_nodup m.ns)).1, ?_, ?_⟩
+  · unfold decoratorReports at hd
+    by_cases he : (regGet w1.registry path).isEmpty = true
+    · simp [he] at hd; obtain ⟨_, rfl⟩ := hd; simp
+    · simp only [he] at hd
+      by_cases hdup : hasDup (regGet w1.registry path) = true
+      · simp [hdup] at hd
+      · simp only [hdup] at hd
+        cases hp : parseCollected enum { w1 with registry := regErase w1.registry path } (regGet w1.registry path) with
+        | none => simp [hp] at hd
+        | some d =>
+          simp only [hp, Bool.false_eq_true, ↓reduceIte, Prod.mk.injEq, Option.some.injEq] at hd
+          obtain ⟨_, rfl⟩ := hd
+          have := dict_keys_pair path d (C13_ids_sound enum _ _ d hp).1
+          rw [filterMap_key_map]; exact this
+  · intro a ha b hb hab
+    subst hab
+    exact hdisj a ha hb
+
+/-! ## Module names and the `sys.modules` cache -/
+
+/-- **C13_module_inj_full**: different files get different module names. -/
+def C13_module_inj_full : Prop := ∀ (root p1 p2 : Path), pathKey root p1 = pathKey root p2 → p1 = p2
+
+/-- **Finding F12**: false — `x.y/task_t.py` and `x_y/task_t.py` are both `x_y.task_t`; likewise two
+packages of the same name in different directories, and a file shadowing a package member. -/
+theorem C13_module_inj_full_false : ¬ C13_module_inj_full := by
+  intro h
+  have := h ["r"] ["r", "x.y", "task_t.py"] ["r", "x_y", "task_t.py"] (by decide)
+  simp at this
+
+def f12Fs : FS := { pre := ["r"], tree := .dir "proj" [.dir "a" [.dir "pkg" [.file "__init__.py", .file "task_x.py"]],
+                                                         .dir "b" [.dir "pkg" [.file "__init__.py", .file "task_x.py"]]] }
+example : pkgTop f12Fs ["r", "proj", "a", "pkg", "task_x.py"] = some ["r", "proj", "a", "pkg"] ∧
+    pkgKey ["r", "proj", "a"] ["r", "proj", "a", "pkg", "task_x.py"] = pkgKey ["r", "proj", "b"] ["r", "proj", "b", "pkg", "task_x.py"] := by decide
+
+/-- F12 end to end in the model: the second package's function is never collected, the first one twice. -/
+def f12Env : Env :=
+  { fs := f12Fs, cfg := { root := f8bRoot, paths := [f8bRoot], ignore := [], taskFiles := Generated.defaultTaskFiles },
+    progs := [(f8bRoot ++ ["a", "pkg", "task_x.py"], { imports := [], stmts := [.defFn 1 (some "task_x") "task_x" [] [] 1] }),
+              (f8bRoot ++ ["b", "pkg", "task_x.py"], { imports := [], stmts := [.defFn 2 (some "task_x") "task_x" [] [] 2] })],
+    preloaded := [] }
+example : (collect f12Env id).exit = 0 ∧ (collect f12Env id).tasks.map (·.tag) = [1, 1] := by decide
+
+/-- **C13_module_inj_partial.** For files below the root that are not in a package, whose directory names
+and stems contain no `.`, whose stem is not `__init__`, and that do not differ only in their extension,
+the module name determines the file. -/
+theorem C13_module_inj_partial (root r1 r2 : Path) (l1 l2 : String)
+    (hd1 : ∀ c ∈ r1 ++ [fileStem l1], dotToUnderscore c = c) (hd2 : ∀ c ∈ r2 ++ [fileStem l2], dotToUnderscore c = c)
+    (hi1 : fileStem l1 ≠ "__init__") (hi2 : fileStem l2 ≠ "__init__")
+    (hext : fileStem l1 = fileStem l2 → l1 = l2)
+    (h : pathKey root (root ++ r1 ++ [l1]) = pathKey root (root ++ r2 ++ [l2])) :
+    root ++ r1 ++ [l1] = root ++ r2 ++ [l2] := by
+  have key : ∀ (r : Path) (l : String), (∀ c ∈ r ++ [fileStem l], dotToUnderscore c = c) → fileStem l ≠ "__init__" →
+      pathKey root (root ++ r ++ [l]) = r ++ [fileStem l] := by
+    intro r l hd hi
+    have hp : root.isPrefixOf (root ++ r ++ [l]) = true := by
+      rw [List.isPrefixOf_iff_prefix, List.append_assoc]; exact List.prefix_append _ _
+    have hrel : relStem root (root ++ r ++ [l]) = r ++ [fileStem l] := by
+      unfold relStem
+      simp [List.append_assoc]
+    unfold pathKey
+    simp only [hp, ↓reduceIte, hrel]
+    have hl : (r ++ [fileStem l]).getLast? = some (fileStem l) := by simp
+    have hne : ((r ++ [fileStem l]).getLast? == some "__init__") = false := by
+      rw [hl]; simpa using hi
+    simp only [hne, Bool.and_false, Bool.false_eq_true, ↓reduceIte]
+    calc (r ++ [fileStem l]).map dotToUnderscore = (r ++ [fileStem l]).map id :=
+          List.map_congr_left (fun c hc => hd c hc)
+      _ = r ++ [fileStem l] := by simp
+  rw [key r1 l1 hd1 hi1, key r2 l2 hd2 hi2] at h
+  have hlen : r1.length = r2.length := by
+    have := congrArg List.length h; simp at this; exact this
+  have := List.append_inj h hlen
+  have hl : l1 = l2 := hext (by simpa using this.2)
+  rw [this.1, hl]
+
+example : pathKey ["r"] (["r"] ++ ["a", "sub"] ++ ["task_x.py"]) = ["a", "sub", "task_x"] := by decide
+
+/-- **C13_import_own_partial.** A source file outside any package whose module name is not yet in
+`sys.modules` is executed itself, and the module returned is its own. -/
+theorem C13_import_own_partial (env : Env) (w : World) (path : Path) (hp : pkgTop env.fs path = none)
+    (hc : w.modules.lookup (pathKey env.cfg.root path) = none) (hs : isPySource path = true) :
+    ∃ w' m, importPath env w path = (w', some m) ∧ m.src = some path := by
+  refine ⟨insertMissing (loadAs env w (pathKey env.cfg.root path) path).1 (pathKey env.cfg.root path),
+          (loadAs env w (pathKey env.cfg.root path) path).2, ?_, ?_⟩
+  · simp only [importPath, hp, importByPath, hc, hs, ↓reduceIte]
+  · simp [loadAs]
+
+/-! ## Failures are loud: exit code 3 -/
+
+theorem collect_fail_exit (env : Env) (enum : List String → List String)
+    (h : Report.fail ∈ (collectReports env enum).2) : (collect env enum).exit = 3 := by
+  unfold collect
+  have : ((collectReports env enum).2.filter Report.isFail).length ≠ 0 := by
+    intro h0
+    have := List.length_eq_zero_iff.1 h0
+    have hm : Report.fail ∈ (collectReports env enum).2.filter Report.isFail := List.mem_filter.2 ⟨h, rfl⟩
+    rw [this] at hm; simp at hm
+  simp only [beq_iff_eq, this, ↓reduceIte]
+  decide
+
+/-- **C13_exit.** The session's exit code is `COLLECTION_FAILED` (3) exactly when some collection report
+failed, and `OK`'s code otherwise (before DAG construction and execution). -/
+theorem C13_exit (env : Env) (enum : List String → List String) :
+    ((collect env enum).exit = 3 ↔ (collect env enum).fails ≠ 0) := by
+  unfold collect
+  by_cases h : ((collectReports env enum).2.filter Report.isFail).length = 0
+  · simp only [h, beq_self_eq_true, ↓reduceIte, ne_eq, not_true_eq_false, iff_false]; decide
+  · simp only [beq_iff_eq, h, ↓reduceIte, ne_eq, not_false_eq_true, iff_true]; decide
+
+/-- **C13_leftovers_fail.** Every function that is still registered in `COLLECTED_TASKS` after all files
+were collected (defined in a module that is not a task module, or whose module was executed under
+another file's name) becomes a failed report: the build ends with exit code 3, the function is not
+silently ignored. -/
+theorem C13_leftovers_fail (env : Env) (enum : List String → List String) (k : Path) (os : List ObjId) (o : ObjId)
+    (hk : (k, os) ∈ (collectReports env enum).1.registry) (ho : o ∈ os) : (collect env enum).exit = 3 := by
+  apply collect_fail_exit
+  unfold collectReports
+  simp only
+  apply List.mem_append.2; right
+  unfold leftovers
+  exact List.mem_flatMap.2 ⟨(k, os), hk, List.mem_map.2 ⟨o, ho, rfl⟩⟩
+
+/-- **C13_file_fail_exit.** If collecting some file of the walk yields a failed report (duplicate id,
+re-wrapped function object, import error), the build ends with exit code 3. -/
+theorem C13_file_fail_exit (env : Env) (enum : List String → List String) (pre post : List Path) (p : Path)
+    (hfiles : notIgnoredPaths env.fs env.cfg.ignored env.cfg.paths = pre ++ p :: post)
+    (hf : Report.fail ∈ (collectFile env enum (pre.foldl (collectStep env enum) (env.init, [])).1 p).2) :
+    (collect env enum).exit = 3 := by
+  apply collect_fail_exit
+  unfold collectReports
+  simp only [hfiles]
+  exact List.mem_append.2 (Or.inl (foldl_collectStep_split env enum pre post p _ _ hf))
+
+/-- A raising decorator hook (duplicate ids, duplicated function objects) turns the whole file into one
+failed report. -/
+theorem C13_raise_is_fail (env : Env) (enum : List String → List String) (w w1 w2 : World) (path : Path) (m : Module)
+    (htf : env.cfg.isTaskFile path = true) (hi : importPath env w path = (w1, some m))
+    (hd : decoratorReports enum w1 path = (w2, none)) : (collectFile env enum w path).2 = [Report.fail] := by
+  simp [collectFile, htf, Generated.collectFileOrder, collectFileStep, hi, hd]
+
+/-- Non-vacuity: a helper module's `@task` function is left over → exit 3; a duplicate id → exit 3. -/
+def leftEnv : Env :=
+  { fs := { pre := ["r"], tree := .dir "proj" [.file "task_m.py", .file "helper_a.py"] },
+    cfg := { root := f8bRoot, paths := [f8bRoot], ignore := [], taskFiles := Generated.defaultTaskFiles },
+    progs := [(f8bRoot ++ ["task_m.py"], { imports := ["helper_a"], stmts := [.defFn 1 (some "task_a") "task_a" [] [] 1] }),
+              (f8bRoot ++ ["helper_a.py"], { imports := [], stmts := [.defFn 2 (some "helped") "helped" [] [] 2, .wrap 2 none none []] })],
+    preloaded := [] }
+example : (collect leftEnv id).exit = 3 ∧ (collect leftEnv id).fails = 1 ∧ (collect leftEnv id).tasks.map (·.tag) = [1] := by decide
 
 end Collect
 end Pytask
